@@ -3,7 +3,7 @@
    arithmetic mode. Parametrised by what the mmap result is compared with and by the length passed to munmap
    (Model/MmapCfg.v says which the current source uses). No proofs here. *)
 From Coq Require Import NArith List Bool.
-Require Import SDS.Model.Mach SDS.gen.Funs SDS.Spec.AddrSpace SDS.Model.MmapCfg.
+Require Import SDS.Model.Mach SDS.gen.Funs SDS.Spec.AddrSpace SDS.gen.MmapCfg.
 Import ListNotations.
 Open Scope N_scope.
 
